@@ -4,6 +4,7 @@ pub mod gen;
 pub mod oracle;
 pub mod props;
 pub mod merge;
+pub mod isolate;
 pub mod selftest;
 pub mod cli;
 
@@ -121,7 +122,11 @@ fn main() {
         "selftest" => {
             std::env::set_var("VH_EVIDENCE_OUT", format!("{}/out/selftest.json", engine::verif_root()));
             let mut cx = Ctx::new("SELF", Tier::Quick);
-            selftest::run(&mut cx);
+            if std::env::var("VH_ISO_TEST").is_ok() {
+                selftest::run_iso(&mut cx);
+            } else {
+                selftest::run(&mut cx);
+            }
             std::process::exit(cx.finish("self"));
         }
         "merge" => {
